@@ -140,6 +140,7 @@ class Weaver:
     def __init__(self, index, unit_name):
         self.ix = index
         self.unit = unit_name
+        self.prop = None   # set by the unit: the property this unit is judged for (hints may be property-level for some properties only)
         self.clauses = {}  # marker id -> dict(fn, kind, idx, tag, text)
         self.records = []  # per extraction bookkeeping
         self._cid = 0
@@ -355,6 +356,16 @@ class Weaver:
             elif nm in ASSERT_MACROS:
                 txt = src[m["span"][0]:m["span"][1]].decode("utf-8")
                 ed.replace(m["span"][0], m["span"][1], rewrite_assert(txt, nm), "R1")
+            elif nm in spec.get("macro_redirect", {}):
+                # R3 (macro form): `name![args]` -> `stand_in(args)`: the arguments stay the code's own text
+                txt = src[m["span"][0]:m["span"][1]].decode("utf-8")
+                mm = re.match(r"(?s)((?:[A-Za-z_][\w:]*)\s*!\s*[\(\[\{])(.*)([\)\]\}])(\s*;?\s*)$", txt)
+                if not mm:
+                    raise Undecided(f"R3: cannot parse macro call {txt[:60]!r}")
+                a0 = m["span"][0]
+                ed.replace(a0, a0 + len(mm.group(1).encode()), spec["macro_redirect"][nm] + "(", "R3")
+                close_at = a0 + len((mm.group(1) + mm.group(2)).encode())
+                ed.replace(close_at, close_at + 1, ")", "R3")
         # W1: ret name + requires/ensures/decreases
         ret = spec.get("ret", "r")
         if it["ret"] is not None and not spec.get("keep_ret", False):
@@ -468,7 +479,7 @@ class Weaver:
             if h.get("after"):
                 pos += len(anchor)
             htext = h["text"]
-            if h.get("tag") == "auxiliary":
+            if h.get("tag") == "auxiliary" or ("props" in h and self.prop not in h["props"]):
                 htext = "\n".join(l + " /*@aux-hint*/" for l in htext.split("\n"))
             text = text[:pos] + "\n" + htext + "\n" + text[pos:]
             fired.append("W5")
@@ -529,7 +540,7 @@ def emit_closure_fn(w, spec):
             raise Undecided(f"W5 hint anchor {anchor!r} occurs {text.count(anchor)} times in closure {k} of {spec['path']}")
         pos = text.find(anchor) + (len(anchor) if h.get("after") else 0)
         htext = h["text"]
-        if h.get("tag") == "auxiliary":
+        if h.get("tag") == "auxiliary" or ("props" in h and w.prop not in h["props"]):
             htext = "\n".join(l + " /*@aux-hint*/" for l in htext.split("\n"))
         text = text[:pos] + "\n" + htext + "\n" + text[pos:]
         fired.append("W5")
